@@ -4,7 +4,7 @@ import locks
 import poolrace
 
 PROP = "C01"
-SPEC = ["Bng.Spec.C01", "Bng.Spec.C01Epoch", "Bng.Spec.C01FreeList", "Bng.Spec.C01Nexus", "Bng.Spec.C01Cluster", "Bng.Spec.C16PppoeWhole", "Bng.Spec.C01V6Construct"] + ["Bng.Spec.C05Locks"]
+SPEC = ["Bng.Spec.C01", "Bng.Spec.C01Epoch", "Bng.Spec.C01FreeList", "Bng.Spec.C01Nexus", "Bng.Spec.C01Cluster", "Bng.Spec.C16PppoeWhole", "Bng.Spec.C01V6Construct", "Bng.Spec.C01Alias"] + ["Bng.Spec.C05Locks"]
 # monitors of the pool specification that belong to C01 (C05 owns count/exhaustion/lost/total)
 MON = ["unique", "idempotent", "range", "agree"]
 # epoch (lease) allocator: Bng.LeaseSpec adds expiry/reclaimed to the pool monitor
@@ -41,10 +41,11 @@ LEVEL = ("Uniqueness, in-range and idempotence are theorems over the Lean models
          "abstract pool monitor (the definition the refinement theorems are about) judges the real code's answers.")
 ASSUME = [
     "concurrent callers: a burst of k concurrent Allocate calls of one subscriber (localpool, peercluster) is judged against ONE allocate (theorem burst_equals_single_allocate: under the pool's mutex a burst is a sequence of k calls, all but the first idempotent); the k goroutines are parked at the pool lock held by the harness and released together; the same workload runs a second time under the Go race detector; concurrent calls of DIFFERENT subscribers are not driven (their answers depend on the interleaving)",
-    "small-scope exhaustive enumeration runs in the THOROUGH tier only (the quick tier is seeded random sequences plus the corpus); its real bounds for the free-list pools are: dhcppool all sequences of length 5 over 12 mutating ops (alloc x3 MACs, release/mark/reserve of in-pool addresses) and of length 4 over those plus 3 out-of-range and 2 read-only ops, on pools of 2 and 3 usable addresses; v6addr, v6prefix, pppoepool all alloc/release sequences over 3 keys of length 6 (2-4 units) and 7 (1-2 units); localpool the same plus length 5 over 12 ops including get/owner/stats; nexushash, nexusclient and peercluster have no exhaustive part (random only). This is narrower than the '<=8 units, <=7 operations' of the property text; the theorems, not the enumeration, cover the general case",
+    "small-scope exhaustive enumeration runs in the THOROUGH tier only (the quick tier is seeded random sequences plus the corpus); its real bounds for the free-list pools are: dhcppool all sequences of length 5 over 13 ops (alloc x3 MACs, release/mark/reserve of in-pool addresses, one alias probe `scribble`) and of length 4 over those plus 3 out-of-range and 2 read-only ops, on pools of 2 and 3 usable addresses; v6addr, v6prefix, pppoepool all alloc/release sequences over 3 keys of length 6 (2-4 units) and 7 (1-2 units); localpool the same plus length 5 over 12 ops including get/owner/stats; nexushash, nexusclient and peercluster have no exhaustive part (random only). This is narrower than the '<=8 units, <=7 operations' of the property text; the theorems, not the enumeration, cover the general case",
     "peercluster: all nodes are configured with the same peer list and the same pool network (as cmd/bng does from one set of flags); node health is set through the verif hook, the rendezvous ranking is taken from the implementation as an input of the model",
     "nexusclient: the client runs over nexus.MemoryStore; the harness waits after every operation until all watch callbacks have reached the client's caches (the in-memory store delivers them on unordered goroutines)",
     "free-list pools: the network is what net.ParseCIDR returns (masked base, prefix length within the family); pppoe.NewIPPool and dhcpv6.NewAddressPool on the all-addresses network (/0) are excluded (the former does not terminate); keys (MAC, DUID, session id, subscriber id) are mapped injectively to numbers; pppoe.IPPool has no mutex (its callers run on one goroutine)",
+    "alias probes (poolalloc, dhcppool `scribble`): the harness overwrites the bytes of every *net.IPNet / net.IP the allocator returned to it or received from it (and, for the allocation store, of every record a getter returned); since fixes 1525014 and 7ce824d these objects are copies, so the probe is NO operation of the models; the pre-fix sharing is modelled separately (Bng.Dist.Aliased, Bng.PoolAlias) for the witness theorems only",
     "nexushash: allocateFromPool is driven through the verif hook with the pool record's CIDR; the surrounding subscriber-record bookkeeping of AllocateIPForSubscriber is not driven; uniqueness is FALSE for this allocator (known finding D1-nexus-hash)",
     "epoch: IPv4 base network masked to its prefix, ones <= PrefixLength <= 32 (what NewEpochBitmapAllocator accepts); the epoch counter is a Nat (the uint64 wraps consistently with % 4)",
     "each mutex-protected method is one atomic step (lock discipline of the pool types); data races inside a critical section are not modelled",
